@@ -42,6 +42,22 @@ Proof.
   induction l as [|x l IH]; intros [|y l'] E; cbn in E; try discriminate; [reflexivity|].
   apply andb_true_iff in E. destruct E as [E1 E2]. apply Nat.eqb_eq in E1. subst. f_equal. now apply IH.
 Qed.
+(* ... and when it is, the value returned is that of the documented routine with n_modes = the number of modes the slice kept,
+   min(n_modes - L, L): the malformed request is silently answered as a different, well-formed one *)
+Theorem inner_as_is_beyond_value (A B : tensor F) (n : nat) :
+  ndim A < n -> shape B = skipn (2 * ndim A - n) (shape A) ->
+  inner_as_is Op A B n = inner Op A B (Some (ndim A - (2 * ndim A - n))).
+Proof.
+  intros H HB. unfold ndim in *. set (L := length (shape A)) in *. set (k := 2 * L - n) in *.
+  assert (Hk : k <= L) by (unfold k; lia).
+  assert (HlB : length (shape B) = L - k) by (rewrite HB, skipn_length; reflexivity).
+  unfold inner_as_is, inner, lastn'. fold L. rewrite (inner_cut_beyond _ _ H). fold k.
+  replace (L - (L - k)) with k by lia.
+  assert (E : (L - k <=? L) = true) by (apply Nat.leb_le; lia). rewrite E. cbn [andb].
+  rewrite (firstn_all2 (n := n)) by lia. rewrite (firstn_all2 (n := L - k)) by lia.
+  rewrite (skipn_all2 (n := n)) by lia. rewrite (skipn_all2 (n := L - k)) by lia.
+  reflexivity.
+Qed.
 End P.
 
 (* the accepted malformed request on the real code's witness: inner(arange(6).reshape(2,3), [1,2,3], n_modes=3) = [8, 26] under the
@@ -53,6 +69,10 @@ Proof.
   exists (mk [2; 3] [0; 1; 2; 3; 4; 5]%Z), (mk [3] [1; 2; 3]%Z), 3, (mk [2] [8; 26]%Z).
   split; [cbv; lia|]. split; vm_compute; reflexivity.
 Qed.
+Example inner_as_is_beyond_value_nonvacuous :
+  let A := mk [2; 3] [0; 1; 2; 3; 4; 5]%Z in let B := mk [3] [1; 2; 3]%Z in
+  ndim A < 3 /\ shape B = skipn (2 * ndim A - 3) (shape A) /\ inner ZR A B (Some (ndim A - (2 * ndim A - 3))) = Ok (mk [2] [8; 26]%Z).
+Proof. split; [cbv; lia|]. split; [reflexivity | vm_compute; reflexivity]. Qed.
 Example inner_as_is_in_range_nonvacuous :
   let A := mk [2; 3] [0; 1; 2; 3; 4; 5]%Z in let B := mk [3; 2] [1; 2; 3; 4; 5; 6]%Z in
   1 <= ndim A /\ inner_as_is ZR A B 1 = Ok (mk [2; 2] [13; 16; 40; 52]%Z).
